@@ -4,6 +4,7 @@
 namespace c14 {
 extern template bool run_lattice<float> (bool);  extern template bool run_extreme<float> (bool);
 extern template bool run_lattice<double> (bool); extern template bool run_extreme<double> (bool);
+extern template bool run_rounding<float> (bool); extern template bool run_rounding<double> (bool);
 }
 using namespace vf;
 
@@ -25,12 +26,15 @@ int main (int argc, char** argv)
     R ().assume ("long double has a 64-bit significand (x86-64): the power-of-two alphabet's cross products are exact");
     const char* lat = th
         ? "boxes: every (min,max) in {0..4} per axis incl. flat and inverted (15625) x origins {-2..6}^3 x directions {-3..3}^3 minus 0 (unnormalised); 3 entry points; exact integer slab oracle"
-        : "boxes: every (min,max) in {0..3} per axis incl. flat and inverted (4096) x origins {-1..4}^3 x directions {-2..2}^3 minus 0 (unnormalised); 3 entry points; exact integer slab oracle";
+        : "boxes: every (min,max) in {0..3} per axis incl. flat and inverted (4096) x origins {-1..4}^3 x directions {-3..3}^3 minus 0 (unnormalised); 3 entry points; exact integer slab oracle";
     const char* ext = th
         ? "direction components {0,+-denorm_min,+-min,+-2^-100,+-1,+-2^100,+-max}^3 minus 0 x boxes (per-axis every (min,max) over {0,1,2}s) x origins {-1,0,1,2,3}^3 s, scales s in {min,2^-100,1,2^100,2^(emax-5)}"
         : "direction components {0,+-denorm_min,+-min,+-2^-100,+-1,+-2^100,+-max}^3 minus 0 x boxes (per-axis (0,1),(1,1),(0,2),(1,0))s x origins {-1,0,1,3}^3 s, scales s in {min,2^-100,1,2^100,2^(emax-5)}";
     run_stage ("lattice.float", lat, [&] { return c14::run_lattice<float> (th); });
     run_stage ("lattice.double", lat, [&] { return c14::run_lattice<double> (th); });
+    const char* rnd = "rounding-at-the-boundary alphabet: direction components {0,+-d,+-e}, boxes (min,max) over {0,D,P} per axis incl. flat/inverted, origins {-D,0,D,P,P+D}^3; float (D,d,e,P)=(1,7,21,3), double (5,29,87,15)";
+    run_stage ("rounding.float", rnd, [&] { return c14::run_rounding<float> (th); });
+    run_stage ("rounding.double", rnd, [&] { return c14::run_rounding<double> (th); });
     run_stage ("extreme.float", ext, [&] { return c14::run_extreme<float> (th); });
     run_stage ("extreme.double", ext, [&] { return c14::run_extreme<double> (th); });
     R ().sample ("box{(0,0,0),(1,1,1)} pos=(-1,-1,1) dir=(1,1,0): grazes the top edge from corner to corner -> hit, ip=(0,0,1)");
